@@ -139,6 +139,8 @@ func (u *URL) String() string {
 	// Fields
 	fields := make([]string, 0, len(u.Params.Fields))
 	for key := range u.Params.Fields {
+		verifTrace("URL.String.fields", key)
+
 		fields = append(fields, key)
 	}
 
